@@ -667,7 +667,9 @@ fn judge_c12(script: &SockScript, l: &SockLog) -> Vec<SFinding> {
                 let target_sock = (0..script.cfgs.len() as u8).find(|s| Some(sock_addr(*s)) == c.target);
                 let acc = target_sock.and_then(|s| accepts_avail.get(&s).copied()).unwrap_or(0);
                 let completed_to_target = l.connects.iter().filter(|o| o.target == c.target && matches!(o.done, Done::Ok { .. })).count();
-                if total_conn <= min_limit && acc > completed_to_target {
+                // an abandoned connect's SYN stays queued at the listener (nothing tells it) and uses up an accept
+                let abandoned_to_target = l.connects.iter().filter(|o| o.target == c.target && matches!(o.done, Done::Cancelled)).count();
+                if total_conn <= min_limit && acc > completed_to_target + abandoned_to_target {
                     v.push(sf("C12", "service", if crossing { "ids/simultaneous-open-with-adjacent-ids" } else { "connect/never-completes-under-concurrency" }, format!("connect #{i} to {:?} is still pending at the end although its peer had a free accept call and no limit was reached", c.target)));
                 }
             }
@@ -698,6 +700,9 @@ pub fn c12(ctx: &Ctx) -> Outcome {
             families.push((format!("sock:c12-pair-live{max_live}-ids{da}/{db}"), cfg_n(2, max_live, &bases), alpha2.clone(), len));
         }
     }
+    // several connects to the same peer in flight, some of them given up: the others must not notice
+    let alpha_cancel: Vec<Ev> = vec![Ev::Connect { from: 0, to: 1 }, Ev::ConnectCancel(0), Ev::ConnectCancel(1), Ev::Accept { sock: 1 }, Ev::Settle];
+    families.push(("sock:c12-pair-abandoned-connects".into(), cfg_n(2, 64, &[500, 600]), alpha_cancel, len));
     families.push(("sock:c12-triangle".into(), cfg_n(3, 64, &[500, 500, 501]), alpha3.clone(), len));
     families.push(("sock:c12-triangle-live2".into(), cfg_n(3, 2, &[500, 502, 501]), alpha3.clone(), ctx.tier.pick(4, 5)));
     for (name, cfgs, alpha, len) in families {
@@ -787,20 +792,29 @@ pub fn c12(ctx: &Ctx) -> Outcome {
         }
         out.parts.push(p);
     }
-    // fault interleavings: two connections in both directions, every single deviation
-    {
+    // fault interleavings: two connections in both directions, every single deviation; once as is and once
+    // with a spare acceptor parked on each socket (a duplicated SYN then meets a pending accept)
+    for spare in [false, true] {
         let cfgs = cfg_n(2, 64, &[500, 501]);
-        let events = vec![(Ev::Accept { sock: 0 }, false), (Ev::Accept { sock: 1 }, true), (Ev::Connect { from: 0, to: 1 }, true), (Ev::Connect { from: 1, to: 0 }, true), (Ev::Connect { from: 0, to: 1 }, false), (Ev::Accept { sock: 1 }, true), (Ev::Settle, false), (Ev::Settle, false)];
+        let mut events = vec![(Ev::Accept { sock: 0 }, false), (Ev::Accept { sock: 1 }, true), (Ev::Connect { from: 0, to: 1 }, true), (Ev::Connect { from: 1, to: 0 }, true), (Ev::Connect { from: 0, to: 1 }, false), (Ev::Accept { sock: 1 }, true)];
+        if spare {
+            events.push((Ev::Accept { sock: 0 }, true));
+            events.push((Ev::Accept { sock: 1 }, true));
+        }
+        events.push((Ev::Settle, false));
+        events.push((Ev::Settle, false));
         let base = SockScript { cfgs: cfgs.clone(), events: events.clone(), rng_seed: 1, latency_us: 10_000, plan: vec![] };
         let l0 = run(&base);
         let n = l0.wire.iter().filter(|w| w.k != usize::MAX).count();
         let mut plans: Vec<Vec<(usize, crate::duo::sim::Fate)>> = vec![vec![]];
         for k in 0..n {
-            // a lost SYN is never retransmitted: not a fault the property is about
-            if l0.wire.iter().any(|w| w.k == k && w.ptype == 4) {
-                continue;
-            }
-            for fate in [crate::duo::sim::Fate::Drop, crate::duo::sim::Fate::Dup, crate::duo::sim::Fate::Delay(15_000)] {
+            // a lost SYN is never retransmitted: losing it is not a fault the property is about -
+            // duplicating or delaying it is
+            let is_syn = l0.wire.iter().any(|w| w.k == k && w.ptype == 4);
+            for fate in [crate::duo::sim::Fate::Drop, crate::duo::sim::Fate::Dup, crate::duo::sim::Fate::Delay(15_000), crate::duo::sim::Fate::Delay(300_000)] {
+                if is_syn && fate == crate::duo::sim::Fate::Drop {
+                    continue;
+                }
                 plans.push(vec![(k, fate)]);
             }
         }
@@ -813,7 +827,7 @@ pub fn c12(ctx: &Ctx) -> Outcome {
                 (judge_c12(&s, &l), l.trace_hash)
             })
             .collect();
-        let mut p = Part::fe("sock:c12-interleaved-faults");
+        let mut p = Part::fe(if spare { "sock:c12-interleaved-faults-spare-acceptors" } else { "sock:c12-interleaved-faults" });
         let mut seen = std::collections::HashSet::new();
         for (pl, (fs, h)) in plans.iter().zip(results) {
             p.evaluations += 1;
@@ -829,7 +843,7 @@ pub fn c12(ctx: &Ctx) -> Outcome {
             }
         }
         p.distinct_outcomes = p.distinct_nontrivial;
-        p.bound = format!("three connections (two A->B, one B->A) opened in one instant, every single drop/dup/delay of each of the {n} datagrams");
+        p.bound = format!("three connections (two A->B, one B->A) opened in one instant{}, every single drop/dup/delay(15 ms, 300 ms) of each of the {n} datagrams (a SYN is duplicated or delayed, not dropped)", if spare { ", one more accept parked on each socket" } else { "" });
         p.samples.push(json!({"plan": [[7, "Drop"]]}));
         out.parts.push(p);
     }
